@@ -363,6 +363,7 @@ def finish(pid, tier, seed, level, total, coverage, assumptions, t0, collect=Non
     kf = Findings(pid)
     unknown = []
     known = collections.Counter()
+    known_inputs = set()
     seen = set()
     for f in total.fails:
         ident = (f[0], f[1], f[2])
@@ -372,7 +373,8 @@ def finish(pid, tier, seed, level, total, coverage, assumptions, t0, collect=Non
         k = kf.lookup(f[0], f[2], f[1])
         if k is None:
             unknown.append(f)
-        else:
+        elif (k, f[0], f[2]) not in known_inputs:
+            known_inputs.add((k, f[0], f[2]))
             known[k] += 1
     if collect:
         with open(collect, "w", encoding="utf8") as fh:
